@@ -23,14 +23,9 @@ def guessed_offset (p : Parsed) (ofu : NaiveDT → Res Int) : Parsed.RP Int :=
         | .panic => .panic : Parsed.RP Int)
   | none => .ok (.ok 0)
 
-/-- a zone-aware value agrees with the offset field and the timestamp field of `p` (as far as they
-are supplied): it carries exactly that offset, and its instant is exactly that timestamp — or, when
-the value is a leap second, possibly one less (a timestamp cannot tell the leap second from the
-second after it) -/
-def Consistent (p : Parsed) (c : Zoned) : Prop :=
-  (∀ x, p.offset = some x → c.off = x) ∧
-  (∀ ts, p.timestamp = some ts →
-    ts = instSecs c.utc ∨ (1000000000 ≤ c.utc.time.frac ∧ ts = instSecs c.utc + 1))
+/- `Consistent`, `GuessIs`, `StepCandidate` are statement-level predicates: defined in
+Spec/ParsedZoneSpec.lean (`Chrono.Spec.Fields`), re-exported here under their old names -/
+export Chrono.Spec.Fields (Consistent GuessIs StepCandidate)
 
 /-- `Consistent`, executable -/
 def consistentB (p : Parsed) (c : Zoned) : Bool :=
@@ -144,12 +139,6 @@ theorem gen_eq (p : Parsed) (ofu : NaiveDT → Res Int) (fl : NaiveDT → Res (M
 
 /-! ### stage 1 -/
 
-/-- `g` is the guessed offset: 0 without a timestamp field, else what the zone reports for the UTC
-date-time `u` whose instant is the supplied timestamp -/
-def GuessIs (p : Parsed) (ofu : NaiveDT → Res Int) (g : Int) : Prop :=
-  (p.timestamp = none ∧ g = 0) ∨
-  (∃ ts u, p.timestamp = some ts ∧ NaiveDT.from_timestamp ts (p.nanosecond.getD 0) = .ok (some u) ∧
-    NDTInv u ∧ instSecs u = ts ∧ ofu u = .ok g)
 
 theorem nano_nonneg (p : Parsed) (hp : InType p) : 0 ≤ p.nanosecond.getD 0 := by
   have hnT := hp.2.2.2.2.2.2.2.2.2.2.2.2.2.2.2.2.2.1
@@ -505,11 +494,6 @@ theorem csub_spec (o : Int) (l : NaiveDT) (ho : OffValid o) (hl : NDTInv l) :
     obtain ⟨_, b, c, _, e1, e2⟩ := Chrono.Props.C04.local_of_fromLocal o l ho hl _ hz
     exact ⟨b, c, e1, e2⟩
 
-/-- what a candidate of the step zone is: a well-formed value whose wall clock is the given local
-date-time and whose offset is the zone's offset at its own instant -/
-def StepCandidate (z : StepZone) (l : NaiveDT) (c : Zoned) : Prop :=
-  ZInv c ∧ Zoned.naive_local c = .ok l ∧ instSecs c.utc = instSecs l - c.off ∧
-    c.utc.time.frac = l.time.frac ∧ z.offset_at (instSecs c.utc) = c.off
 
 /-- `from_local_datetime` of a step zone on a valid local date-time: never panics; every candidate
 is a `StepCandidate`; the candidates' offsets are among `local_offsets`; two candidates are in
